@@ -89,6 +89,8 @@ static void run_C01(const Args &a, long cs) {
 	Spec s = gen_spec(r, g);
 	Table T; if (!load(T, s)) { viol("C01:load:well-formed-table-rejected", s.full_json()); return; }
 	CHandle C(s);
+	auto Ef = T.get_evaluator<float>(); auto Ed = T.get_evaluator<double>();
+	if (!s.extents.empty()) count("tables-with-custom-extents");
 	int nd = s.ndim(); int npts = a.tier == "thorough" ? 600 : 250;
 	if (s.block() > 2000) npts /= 4;
 	bool ones = true; for (float c : s.coef) if (c != 1.f) ones = false;
@@ -110,12 +112,15 @@ static void run_C01(const Args &a, long cs) {
 		phase("ndsplineeval<double>"); double vd = T.ndsplineeval<double>(x.data(), c.data(), 0);
 		phase("operator()"); double vo = T(x.data());
 		phase("C:ndsplineeval"); double vc = C.ok ? ::ndsplineeval(&C.h, x.data(), c.data(), 0) : vf_;
+		phase("evaluator<float>"); double ef1 = Ef.ndsplineeval(x.data(), c.data(), 0), ef2 = Ef(x.data(), 0);
+		phase("evaluator<double>"); double ed1 = Ed.ndsplineeval(x.data(), c.data(), 0), ed2 = Ed(x.data(), 0);
 		std::string tag = region_tag(s, x.data());
 		bool margin = tag.find("margin") != std::string::npos, onknot = tag.find("on-knot") != std::string::npos;
 		for (int d = 0; d < nd; d++) count(std::string("ptclass:") + ptclass_name[cls[d]]);
 		if (rv.M > 0) { uint64_t h = s.hash(); for (double v : x) h = hash_d(h, v); distinct(h); count("points-checked"); if (margin) count("points-in-margin"); if (onknot) count("points-on-knot"); }
 		else count("points-trivial(M=0)");
-		struct { const char *name; double v; LD tol; } chk[] = {{"ndsplineeval<float>", vf_, tf}, {"ndsplineeval<double>", vd, td}, {"operator()", vo, tf}, {"C:ndsplineeval", vc, tf}};
+		struct { const char *name; double v; LD tol; } chk[] = {{"ndsplineeval<float>", vf_, tf}, {"ndsplineeval<double>", vd, td}, {"operator()", vo, tf}, {"C:ndsplineeval", vc, tf},
+			{"evaluator<float>::ndsplineeval", ef1, tf}, {"evaluator<float>::operator()", ef2, tf}, {"evaluator<double>::ndsplineeval", ed1, td}, {"evaluator<double>::operator()", ed2, td}};
 		for (auto &k : chk) {
 			LD err = fabsl((LD)k.v - rv.S);
 			if (!(err <= k.tol)) {
@@ -158,6 +163,8 @@ static void run_C02(const Args &a, long cs) {
 	bool strict = r.coin(0.5); g.strict_increasing = strict;
 	Spec s = gen_spec(r, g);
 	Table T; if (!load(T, s)) { viol("C02:load:well-formed-table-rejected", s.full_json()); return; }
+	auto Ef = T.get_evaluator<float>(); auto Ed = T.get_evaluator<double>();
+	if (!s.extents.empty()) count("tables-with-custom-extents");
 	int nd = s.ndim(); int npts = a.tier == "thorough" ? 200 : 80;
 	if (s.block() > 1000) npts /= 4;
 	count("tables"); count(strict ? "tables-strict-knots" : "tables-repeated-allowed"); count("ndim:" + std::to_string(nd));
@@ -187,6 +194,9 @@ static void run_C02(const Args &a, long cs) {
 			if (__builtin_popcount(m) == 1) { int d = __builtin_ctz(m); single_ref[d] = rv.S; single_tol[d] = tf; single_ok[d] = true; }
 			phase("ndsplineeval<float>(mask)"); double lf = T.ndsplineeval<float>(x.data(), c.data(), m);
 			phase("ndsplineeval<double>(mask)"); double ld_ = T.ndsplineeval<double>(x.data(), c.data(), m);
+			phase("evaluator(mask)"); double lef = Ef.ndsplineeval(x.data(), c.data(), m), led = Ed.ndsplineeval(x.data(), c.data(), m);
+			if (!(fabsl((LD)lef - rv.S) <= tf)) viol("C02:evaluator<float>(mask):derivative-mismatch:" + tag, "{\"mask\":" + std::to_string(m) + ",\"lib\":" + jnum(lef) + ",\"ref\":" + jnum((double)rv.S) + ",\"tol\":" + jnum((double)tf) + ",\"point\":" + pt_json(s, x, c) + "}");
+			if (!(fabsl((LD)led - rv.S) <= td)) viol("C02:evaluator<double>(mask):derivative-mismatch:" + tag, "{\"mask\":" + std::to_string(m) + ",\"lib\":" + jnum(led) + ",\"ref\":" + jnum((double)rv.S) + ",\"tol\":" + jnum((double)td) + ",\"point\":" + pt_json(s, x, c) + "}");
 			count("mask-derivative-checks");
 			if (rv.M > 0 || ord0) distinct(hash_mix(h, 1000 + m));
 			std::string sub = ord0 ? ":order0-axis" : "";
@@ -197,11 +207,14 @@ static void run_C02(const Args &a, long cs) {
 		// ---- gradient
 		if (nd <= 7) {
 			RefVal rv0 = ref_eval_point(s, x.data(), nullptr);
-			for (int prec = 0; prec < 2; prec++) {
-				phase(prec ? "ndsplineeval_gradient<double>" : "ndsplineeval_gradient<float>");
+			for (int variant = 0; variant < 4; variant++) {
+				int prec = variant & 1;
+				static const char *gnames[] = {"ndsplineeval_gradient<float>", "ndsplineeval_gradient<double>", "evaluator<float>::ndsplineeval_gradient", "evaluator<double>::ndsplineeval_gradient"};
+				const char *nm = gnames[variant];
+				phase(nm);
 				for (int i = 0; i <= nd; i++) grad.p[i] = -12345.678;
-				if (prec) T.ndsplineeval_gradient<double>(x.data(), c.data(), grad.p); else T.ndsplineeval_gradient<float>(x.data(), c.data(), grad.p);
-				const char *nm = prec ? "ndsplineeval_gradient<double>" : "ndsplineeval_gradient<float>";
+				if (variant == 0) T.ndsplineeval_gradient<float>(x.data(), c.data(), grad.p); else if (variant == 1) T.ndsplineeval_gradient<double>(x.data(), c.data(), grad.p);
+				else if (variant == 2) Ef.ndsplineeval_gradient(x.data(), c.data(), grad.p); else Ed.ndsplineeval_gradient(x.data(), c.data(), grad.p);
 				if (std::isfinite((double)rv0.M)) {
 					LD t0 = ref_tol(s, rv0, prec);
 					if (!(fabsl((LD)grad.p[0] - rv0.S) <= t0)) viol(std::string("C02:") + nm + ":value-lane-mismatch:" + tag, "{\"lib\":" + jnum(grad.p[0]) + ",\"ref\":" + jnum((double)rv0.S) + ",\"point\":" + pt_json(s, x, c) + "}");
@@ -227,6 +240,7 @@ static void run_C02(const Args &a, long cs) {
 			for (int d = 0; d < nd; d++) { if (ders[d] > s.order[d]) above = true; if (ders[d] >= 2) high = true; }
 			Exact<unsigned> de(ders);
 			phase("ndsplineeval_deriv"); double lv = T.ndsplineeval_deriv(x.data(), c.data(), de.p);
+			{ double lv2 = Ef.ndsplineeval_deriv(x.data(), c.data(), de.p); if (!biteq(lv, lv2) && !(std::isnan(lv) && std::isnan(lv2))) { count("deriv-evaluator-differs-from-member(evaluator-value-judged)"); lv = lv2; } }
 			count("ndsplineeval_deriv-checks"); if (above) count("deriv-above-order-checks"); if (high) count("deriv-order>=2-checks");
 			distinct(hash_mix(h, hash_str(jarr(ders))));
 			std::string dj = "{\"ders\":" + jarr(ders) + ",\"lib\":" + jnum(lv);
@@ -256,6 +270,9 @@ static std::vector<std::vector<unsigned>> c03_patterns() {
 	std::vector<std::vector<unsigned>> p;
 	for (int nd = 1; nd <= 9; nd++) for (unsigned k = 0; k <= 5; k++) p.push_back(std::vector<unsigned>(nd, k));
 	p.push_back({2, 2, 2, 3, 2, 2}); p.push_back({2, 2, 2, 5, 2, 2});
+	// near misses of the known patterns: longer, shorter, permuted (must not be routed to the 6-d routines)
+	p.push_back({2, 2, 2, 3, 2, 2, 2}); p.push_back({2, 2, 2, 5, 2, 2, 1}); p.push_back({2, 2, 2, 3, 2, 2, 3, 2}); p.push_back({2, 2, 2, 5, 2, 2, 2, 2, 2});
+	p.push_back({2, 2, 2, 3, 2}); p.push_back({2, 2, 3, 2, 2, 2}); p.push_back({2, 2, 2, 2, 5, 2}); p.push_back({2, 2, 2, 4, 2, 2}); p.push_back({1, 2, 2, 2, 3, 2, 2});
 	return p;
 }
 template <class F> static void c03_compare(const Spec &s, const Table &T, CHandle &C, Rng &r, const std::vector<double> &xv, const char *prec) {
@@ -343,6 +360,7 @@ static void run_C03(const Args &a, long cs) {
 	}
 	s.coef.resize(tot); for (auto &c : s.coef) c = (float)(r.U() - 0.5);
 	s.flavor = std::string(knot_flavor_name(flavor)) + "/" + kind;
+	if (r.coin(0.3)) { add_custom_extents(r, s); count("tables-with-custom-extents"); }
 	Table T; if (!load(T, s)) { viol("C03:load:well-formed-table-rejected", s.full_json()); return; }
 	CHandle C(s);
 	count("tables"); count("tables-" + kind); count("ndim:" + std::to_string(nd));
@@ -401,6 +419,7 @@ static void run_C04(const Args &a, long cs) {
 	}
 	s.coef.resize(tot); for (auto &c : s.coef) c = (float)(r.U() - 0.5);
 	s.flavor = fl;
+	if (r.coin(0.4)) { add_custom_extents(r, s); count("tables-with-custom-extents"); }
 	Table T; if (!load(T, s)) { viol("C04:load:well-formed-table-rejected", s.full_json()); return; }
 	CHandle C(s);
 	count("tables"); count("ndim:" + std::to_string(nd));
@@ -482,7 +501,9 @@ static void run_C05(const Args &a, long cs) {
 		for (unsigned o : ord) { int nk = 2 * o + 2 + (int)r.below(2); s.order.push_back(o); s.knots.push_back(gen_knots(r, o, nk, (int)r.below(5), 1.0, r.U(), false)); tot *= (size_t)(nk - o - 1); }
 		s.coef.resize(tot); for (auto &c : s.coef) c = (float)(r.U() - 0.5);
 		s.flavor = "pattern";
+		if (r.coin(0.3)) add_custom_extents(r, s);
 	} else s = gen_spec(r, g);
+	if (!s.extents.empty()) count("tables-with-custom-extents");
 	Table T; if (!load(T, s)) { viol("C05:load:well-formed-table-rejected", s.full_json()); return; }
 	CHandle C(s);
 	int nd = s.ndim(); int npts = a.tier == "thorough" ? 400 : 150; if (s.block() > 2000) npts /= 5;
